@@ -20,6 +20,7 @@ SCRIPTS = {
     'S_emitA': ['emit', 'a', 8],            # same-name re-entrant emit, guarded to depth 2
 }
 CTX = {'k': 1}
+RETURNS = {'R1': False, 'R2': 0, 'F0': '', 'M': False, 'S_onB': False, 'S_emitB': True}
 
 BOUNDS = {
     'quick': 'all operation sequences of length <= 3 over 36 operations (tree, no state merging) + final probe; '
@@ -27,7 +28,7 @@ BOUNDS = {
     'thorough': 'all operation sequences of length <= 4 over 36 operations (1.2 M histories); graph search to '
                 'closure with listener lists <= 3 per name',
 }
-ASSUMPTIONS = ['callbacks are compared by identity; contexts are keyword dictionaries',
+ASSUMPTIONS = ['callbacks are compared by identity; contexts are keyword dictionaries; listeners return False, 0, "", True or None - a return value never matters',
                'graph search merges histories whose *reference-model* states are equal; the implementation is '
                'replayed from one representative history per model state and probed by two emits per name']
 
@@ -120,7 +121,7 @@ class Holder(object):
         self.rec = rec
 
     def m(self, *a, **k):
-        self.rec(*a, **k)
+        return self.rec(*a, **k)
 
 
 class Falsy(object):
@@ -131,7 +132,7 @@ class Falsy(object):
         return 0
 
     def __call__(self, *a, **k):
-        self.rec(*a, **k)
+        return self.rec(*a, **k)
 
 
 class World(object):
@@ -168,6 +169,8 @@ class World(object):
                     self.apply(script, self_cb=cb)
                 finally:
                     self.active[name] = act
+            # what a listener returns is nobody's business (a DOM-style "return False stops propagation" would show)
+            return RETURNS.get(name)
         cb.__name__ = name
         return cb
 
